@@ -139,6 +139,14 @@ def c08_script(rng, name, thorough):
     srcs = ["p2", "p9", "p3", "p77"]
     firsts = [0xff, 0, 1, 2, 3, 4, 5, 0x10, 0xfe, 0x80]
     lens = range(0, 81) if thorough else [0, 1, 2, 7, 8, 9, 15, 16, 23, 24, 25, 26, 40, 41, 79, 80]
+    # the receive buffer is reused: what the previous datagram left behind x datagrams too short to have a first byte of their own
+    for stale in ("ff" + rng.bytes(20).hex(), "ff", "00" + rng.bytes(30).hex(), "10" + rng.bytes(30).hex(), "01"):
+        for src in srcs:
+            ops += ["nconnect 1 p9", "ndrop 0", "nhk 3", "ndeliver 0", "ndrop 0"]          # re-arm the pending attempts
+            ops.append("ninject 1 p77 %s" % stale)
+            ops.append("ninject 1 %s -" % src)
+            ops.append("ninject 1 p78 %s" % stale)
+            ops.append("ninject 1 %s %s" % (src, rng.choice(["ff", "00", "10"])))
     for n in lens:
         for src in srcs:
             for fb in (firsts if thorough else [rng.choice(firsts), 0xff, 0]):
@@ -825,4 +833,27 @@ def mac_claims_script(rng, name, seconds=3):
             a = rng.choice(ports)
             dst = rng.choice(macs + ["0200000000aa", "ffffffffffff", "0300000000aa"])
             ops += ["nframe %d %s" % (a, hx(eth_frame(dst, macs[a - 1], rng.choice([None, None, 5]))))] + drain(3)
+    return Script(name, ops, {"suite": "node"})
+
+
+def forge_script(rng, name, cipher=3, after_rotation=False):
+    """datagrams sealed by somebody who was never given a session key — under the all-zero / all-0xff key, naming every key slot (0 = the agreed key,
+    1..3 = slots no key has been rotated into yet), counters in either half — sent with the address of an established peer and from elsewhere:
+    payload, node information with claims, close.  Nothing may be delivered, learned, routed or closed."""
+    al = algos_str(False, [({1: "aes128", 2: "aes256", 3: "chacha"}[cipher], 400.0)])
+    ops, t = full_mesh(rng, 2, algos=al, ka="1")
+    if after_rotation:
+        while t < 125:
+            t += 1
+            ops += second([1, 2], t)
+    plains = ["00" + hx(ipv4_packet(ip4(2), ip4(1), b"evil")), node_info_hex("<id2>", [], ["0a000000/8"], 300, ["p2"]), "ff", "02"]
+    for src in ("p2", "p77"):
+        for kid in (0, 1, 2, 3):
+            for kind in ("zero", "ff"):
+                half = rng.below(2)
+                for h in (half, 1 - half) if src == "p2" else (half,):
+                    ops.append("nforge 1 %s %d %s %d %d %s" % (src, cipher, kind, kid, h, rng.choice(plains)))
+    # the connection is still there and works
+    ops += ["nframe 2 %s" % hx(ipv4_packet(ip4(2), ip4(1), b"ok"))] + drain(2)
+    ops += ["nframe 1 %s" % hx(ipv4_packet(ip4(1), ip4(2), b"ok"))] + drain(2)
     return Script(name, ops, {"suite": "node"})
